@@ -13,10 +13,13 @@ let fun_line (dump : string) : string =
   | Some f ->
       let nb = List.length f.f_instrs in
       let checks = List.length (List.filter (fun i -> i.i_check) f.f_instrs) in
+      let has_dyn = List.exists (fun i -> match i.i_kind with KDyn _ -> true | _ -> false) f.f_instrs in
       let l = loops_checked f and e = exits_checked f in
+      let sfx s = if has_dyn then s ^ " jtf" else s in
+      sfx (
       if l && e then Printf.sprintf "safe nb=%d checks=%d" nb checks
       else if not l then Printf.sprintf "unsafe loop nb=%d checks=%d%s" nb checks (if e then "" else " +exit")
-      else Printf.sprintf "unsafe exit nb=%d checks=%d" nb checks
+      else Printf.sprintf "unsafe exit nb=%d checks=%d" nb checks)
 
 let () =
   Zio.iter_lines (fun line ->
